@@ -15,7 +15,7 @@ EXTENDS Integers, Sequences, FiniteSets, TLC
 
 Tri == {"true", "false", "unset"}
 Classes == {"ping", "manifestGet", "blobGet", "tagsList", "referrersGet", "manifestPut", "uploadPost", "uploadPatch",
-            "manifestDelete", "blobDelete"}
+            "manifestDelete", "blobDelete", "artifactPutImage", "artifactPutIndex"}
 
 Combos == [push : Tri, delete : Tri, blobDelete : Tri, referrers : Tri, readOnly : Tri,
            store : {"mem", "dir"}, warnings : 0..2, rateLimit : {0, 1000}]
@@ -29,17 +29,18 @@ Outcome(c, class) ==
       del  == Eff(c, "delete") /\ ~Eff(c, "readOnly")
   IN CASE class \in {"ping", "manifestGet", "blobGet", "tagsList"} -> "ok"
        [] class = "referrersGet"   -> IF Eff(c, "referrers") THEN "ok" ELSE "refused"
-       [] class \in {"manifestPut", "uploadPost", "uploadPatch"} -> IF push THEN "ok" ELSE "refused"
+       [] class \in {"manifestPut", "uploadPost", "uploadPatch", "artifactPutImage", "artifactPutIndex"} -> IF push THEN "ok" ELSE "refused"
        [] class = "manifestDelete" -> IF del THEN "ok" ELSE "refused"
        [] class = "blobDelete"     -> IF del /\ Eff(c, "blobDelete") THEN "ok" ELSE "refused"
 
 \* the flags change exactly the corresponding behaviour: two combinations that differ only in one switch differ only
 \* in the classes that switch governs (checked on the table itself by TLC)
-Governs(f) == CASE f = "push" -> {"manifestPut", "uploadPost", "uploadPatch"}
+PushClasses == {"manifestPut", "uploadPost", "uploadPatch", "artifactPutImage", "artifactPutIndex"}
+Governs(f) == CASE f = "push" -> PushClasses
                 [] f = "delete" -> {"manifestDelete", "blobDelete"}
                 [] f = "blobDelete" -> {"blobDelete"}
                 [] f = "referrers" -> {"referrersGet"}
-                [] f = "readOnly" -> {"manifestPut", "uploadPost", "uploadPatch", "manifestDelete", "blobDelete"}
+                [] f = "readOnly" -> PushClasses \cup {"manifestDelete", "blobDelete"}
 Switches == {"push", "delete", "blobDelete", "referrers", "readOnly"}
 ExactEffect(c) ==
   \A f \in Switches : \A v \in Tri :
@@ -51,6 +52,9 @@ Fits(c, class, resp) ==
   /\ (Outcome(c, class) = "ok") <=> (resp.status \in 200..299)
   /\ (Outcome(c, class) = "refused") <=> (resp.status \in 400..499)
   /\ resp.status # 429
+  \* the push of a manifest with a subject is acknowledged as a referrer (OCI-Subject) exactly when the referrers API is on
+  /\ (class \in {"artifactPutImage", "artifactPutIndex"} /\ resp.status \in 200..299) => (resp.subject <=> Eff(c, "referrers"))
+  /\ (class \notin {"artifactPutImage", "artifactPutIndex"}) => ~resp.subject
   /\ Len(resp.warnings) = c.warnings
   /\ \A i \in DOMAIN resp.warnings : resp.warnings[i] = i
 =============================================================================
